@@ -15,7 +15,15 @@ Transcript of emit()/print, result and error text (location stripped) must be id
 programs (tools/gen/progs.py) and targeted template families over the full dialect with operand sweeps (fold of a raising
 operation in live/dead positions, short-circuit with effects, effectful statements, inlining with unassigned or effectful
 arguments, module variables bound twice, not-not, len/type on mutated values, speculative execution that fails, % and
-.format specialisation, for over empty iterables, struct/record/enum/annotations/f-strings/string methods).
+.format specialisation, for over empty iterables, struct/record/enum/annotations/f-strings/string methods;
+raising CONSTRUCTORS - dict displays with an unhashable or repeated constant key, nested in other displays, with controls - in the
+full product with every truth-value position (if / elif / conditional expression / and / or / not / bool / comprehension `if` /
+loop exits / wrapped in a display whose truth is known from its shape) and every position that discards the value or uses only
+its shape (expression statement, type / len of a display, index of another element, unused argument or default ...), plus a
+sample of the 128 other raising operations (dict()/int()/range() ..., % and .format arity, indexing and slicing of displays,
+operators, methods) in the same positions; call shapes - wrong arity, keyword-only parameter passed positionally, unknown
+keyword, *args / **kwargs - against tiny defs that are specialised (return type(x) == T) or inlined (return x / const / pass)
+at every kind of call site, callee frozen or not, visible or hidden).
 White-box: the Coq optimiser's folding decision on integer operators (cases.v route) against the implementation."""
 import json
 import os
@@ -41,6 +49,7 @@ ASSUMPTIONS = ["the real bytecode compiler/VM, definitely_assigned.rs, known_met
 KEY_EMPTY_STR = "C02/for-over-constant-empty-string"
 KEY_STALE = "C02/stale-module-constant-across-eval-module"
 KEY_SLICE = "C02/slice-fold-drops-nonconstant-bounds"
+KEY_KWONLY = "C02/type-is-def-keyword-only-param-called-positionally"
 
 
 # ---------------------------------------------------------------------------------------------------------------
@@ -81,7 +90,8 @@ def outcomes(s):
 
 
 def is_parse_error(s):
-    return any(o[0] == "err" and o[1] in ("Parser", "Scope") for o in outcomes(s))
+    """The program text was rejected (not a run).  `int("x")` fails at RUN time with an error of kind Parser: that is a run."""
+    return any(o[0] == "err" and o[1] in ("Parser", "Scope") and not (o[2] or "").startswith("Cannot parse `") for o in outcomes(s))
 
 
 def frozen_mutation(s):
@@ -105,12 +115,12 @@ def indent(text, n=1):
     return "".join(("    " * n + l if l.strip() else l) for l in text.splitlines(True))
 
 
-def template_group(gid, family, body, lib="", then=None, loaded=True):
+def template_group(gid, family, body, lib="", then=None, loaded=True, cell=True):
     """body / lib: template texts with <<hideable>> markers.  lib = module-level helpers and constants."""
     v, pairs = {}, []
-    for mode in ("plain", "opaque", "cell"):
+    for mode in ("plain", "opaque", "cell") if cell else ("plain", "opaque"):
         v[mode] = case(opacify.render(lib + body, mode), then=[opacify.render(t, mode) for t in then] if then else None)
-    pairs += [("plain", "opaque"), ("plain", "cell")]
+    pairs += [("plain", "opaque"), ("plain", "cell")] if cell else [("plain", "opaque")]
     if then is None:
         for mode in ("plain", "opaque"):
             fn = opacify.render(lib, mode) + "def run__():\n" + indent(opacify.render(body, mode)) + "    return None\n"
@@ -394,9 +404,197 @@ def fam_slice(rng, n):
     return out
 
 
+# ---- operations that RAISE although every operand is a constant, used only for their truth value or not at all -------------
+# "Folding an operation that would raise" covers CONSTRUCTORS too: evaluating the entries of `{[]: 1}` has no effect and cannot
+# fail, but BUILDING the dict fails (unhashable key; repeated constant key).  A display whose truth value / type / length is
+# "known" from its shape, or that is dropped as pure, is never built, and the error disappears.
+CTOR_RAISERS = [  # displays whose entries are pure and infallible; (template, raises?)
+    "{<<[]>>: <<1>>}", "{[]: 1}", "{<<{}>>: <<None>>}", "{{}: None}", "{[<<1>>, <<2>>]: <<3>>}", "{(<<1>>, []): <<2>>}", "{([],): []}",
+    "{<<\"a\">>: <<1>>, <<\"a\">>: <<2>>}", "{\"a\": 1, \"a\": 2}", "{<<1>>: <<1>>, <<1>>: <<1>>}", "{<<\"a\">>: <<1>>, <<\"b\">>: <<2>>, <<\"a\">>: <<3>>}",
+    "{(<<1>>, <<2>>): <<0>>, (<<1>>, <<2>>): <<0>>}", "{<<None>>: [], <<None>>: {}}", "{<<\"\">>: <<0>>, <<\"\">>: <<0>>}", "{<<True>>: <<1>>, <<True>>: <<2>>}",
+    "{<<0>>: <<1>>, <<1>>: <<2>>, <<[]>>: <<3>>}", "{<<1>>: {<<[]>>: <<2>>}}", "{<<\"k\">>: {<<\"a\">>: <<1>>, <<\"a\">>: <<1>>}}", "{<<1>>: <<2>>, <<1.0>>: <<3>>}",
+    "{[[]]: <<0>>}", "{{<<1>>: <<2>>}: <<0>>}",
+    # controls: the same shapes, nothing raises (the truth value must then be right)
+    "{<<\"a\">>: <<1>>}", "{<<1>>: <<2>>, <<True>>: <<3>>}", "{(<<1>>, <<2>>): []}", "{<<\"a\">>: [], <<\"b\">>: {}}", "{}", "{<<0>>: <<0>>}",
+]
+OTHER_RAISERS = [
+    # constructor calls / conversions
+    "<<dict>>([(<<[]>>, <<1>>)])", "dict([([], 1)])", "dict([<<1>>])", "dict(<<1>>)", "dict([(<<1>>, <<2>>, <<3>>)])", "dict(a=<<1>>, **{<<\"a\">>: <<2>>})",
+    "dict([(<<\"a\">>, <<1>>)], **{<<\"a\">>: []})", "list(<<1>>)", "tuple(<<None>>)", "int(<<\"x\">>)", "int(<<[]>>)", "int(<<\"1\">>, <<99>>)", "float(<<\"x\">>)",
+    "range(<<\"a\">>)", "range(<<1>>, <<2>>, <<0>>)", "range()", "str(<<1>>, <<2>>)", "bool(<<1>>, <<2>>)", "len(<<1>>)", "len()", "type()", "type(<<1>>, <<2>>)",
+    "hash(<<[]>>)", "ord(<<\"ab\">>)", "chr(<<-1>>)", "max(<<[]>>)", "min()", "abs(<<\"a\">>)", "zip(<<1>>)", "enumerate(<<1>>)", "sorted([<<1>>, <<\"a\">>])",
+    "reversed(<<1>>)", "any(<<1>>)", "all(<<None>>)", "getattr(<<1>>, <<\"x\">>)", "struct(a=<<1>>).b", "fail(<<\"boom\">>)", "isinstance(<<1>>, <<1>>)",
+    "enum(<<\"a\">>)(<<\"b\">>)", "record(x=int)(x=<<\"s\">>)", "list([<<1>>], [<<2>>])", "tuple(<<1>>, <<2>>)", "repr()", "set([<<[]>>])", "set(<<1>>)",
+    # formatting with a bad arity / conversion
+    "<<\"%s %s\">> % (<<1>>,)", "\"%s %s\" % (1,)", "<<\"%d\">> % <<\"x\">>", "<<\"%s\">> % (<<1>>, <<2>>)", "<<\"%\">> % <<1>>", "<<\"%z\">> % <<1>>",
+    "<<\"{}{}\">>.format(<<1>>)", "\"{}{}\".format(1)", "<<\"{x}\">>.format(<<1>>)", "<<\"{\">>.format()", "<<\"{0}{}\">>.format(<<1>>, <<2>>)", "<<\"{:d}\">>.format(<<\"s\">>)",
+    # indexing / slicing of displays and constants
+    "[<<1>>, <<2>>][<<5>>]", "[1, 2][5]", "(<<1>>,)[<<3>>]", "(1,)[3]", "[][<<0>>]", "{}[<<\"a\">>]", "{<<\"a\">>: <<1>>}[<<\"b\">>]", "{\"a\": 1}[\"b\"]",
+    "<<\"abc\">>[<<10>>]", "\"abc\"[10]", "[<<1>>, <<2>>][::<<0>>]", "(1, 2)[::0]", "<<\"abc\">>[::<<0>>]", "(<<1>>, <<2>>)[<<\"x\">>]", "[<<1>>, <<2>>][<<\"a\">>:]",
+    "<<\"abc\">>[<<None>>]", "(<<1>>, <<2>>)[<<1.0>>]", "[[<<1>>]][<<0>>][<<1>>]", "{<<1>>: <<2>>}[<<[]>>]", "<<None>>[<<0>>]", "<<1>>[<<0>>]",
+    # operators
+    "<<1>> // <<0>>", "1 // 0", "<<1>> % <<0>>", "1 % 0", "<<1.0>> // <<0>>", "<<1>> / <<0>>", "<<1>> << <<-1>>", "<<1>> >> <<-1>>", "-<<\"a\">>", "~<<1.5>>", "+<<None>>",
+    "[] < <<1>>", "<<1>> + <<\"a\">>", "1 + \"a\"", "<<\"a\">> * <<\"b\">>", "<<1>> in <<2>>", "<<1>> in <<\"a\">>", "[<<1>>] + (<<2>>,)", "[1] + (2,)", "<<None>> < <<None>>",
+    "(<<1>>, <<\"a\">>) < (<<1>>, <<2>>)", "{} | <<1>>", "<<\"a\">> - <<\"b\">>", "<<[]>> in {}", "[] in {<<1>>: <<2>>}",
+    # attributes and methods
+    "<<None>>.foo", "<<\"abc\">>.nope", "<<\"abc\">>.index(<<\"z\">>)", "\"abc\".index(\"z\")", "[<<1>>].index(<<2>>)", "{}.pop(<<\"a\">>)", "[].pop()",
+    "<<\"a\">>.join([<<1>>])", "\"a\".join([1])", "<<\"abc\">>.split(<<\"\">>)", "<<\"a\">>.startswith(<<1>>)", "[].append()", "{}.get()", "<<\"a\">>.format(**<<1>>)",
+    "<<\"ab\">>.removeprefix(<<1>>)", "[<<3>>].remove(<<4>>)", "{<<1>>: <<2>>}.popitem(<<1>>)", "(<<1>>,).append(<<2>>)",
+    # controls
+    "[<<1>>][<<0>>]", "<<\"%s\">> % <<1>>", "int(<<\"7\">>)", "dict([(<<1>>, <<2>>)])", "<<1>> // <<1>>", "<<\"abc\">>.index(<<\"b\">>)", "len([])",
+]
+# %s = the operation.  Truth-value positions (conditions) and positions where the value is discarded or only its shape is used.
+COND_POSITIONS = [
+    ("if", "if %s:\n    emit(\"then\")\nelse:\n    emit(\"else\")\nemit(<<9>>)\n"),
+    ("if-not", "if not %s:\n    emit(\"then\")\nelse:\n    emit(\"else\")\nemit(<<9>>)\n"),
+    ("if-pass", "emit(<<0>>)\nif %s:\n    pass\nemit(<<9>>)\n"),
+    ("if-pass-pass", "emit(<<0>>)\nif %s:\n    pass\nelse:\n    pass\nemit(<<9>>)\n"),
+    ("if-pass-else", "if %s:\n    pass\nelse:\n    emit(\"else\")\nemit(<<9>>)\n"),
+    ("elif", "if <<0>>:\n    emit(<<1>>)\nelif %s:\n    emit(<<2>>)\nelse:\n    emit(<<3>>)\nemit(<<9>>)\n"),
+    ("ifx", "emit(<<1>> if %s else <<2>>)\n"),
+    ("ifx-not", "emit(<<1>> if not %s else <<2>>)\n"),
+    ("ifx-same", "emit(<<5>> if %s else <<5>>)\n"),
+    ("ifx-assign", "x = <<1>> if %s else <<2>>\nemit(x)\n"),
+    ("ifx-nested", "emit(<<1>> if (%s if <<1>> else <<0>>) else <<2>>)\n"),
+    ("ifx-or", "emit(<<1>> if (<<0>> or %s) else <<2>>)\n"),
+    ("ifx-and-not", "emit(<<1>> if (<<1>> and not %s) else <<2>>)\n"),
+    ("and", "emit(%s and <<1>>)\n"),
+    ("or", "emit(%s or <<1>>)\n"),
+    ("and-or", "emit((%s and <<0>>) or <<3>>)\n"),
+    ("or-and", "emit((%s or <<0>>) and <<3>>)\n"),
+    ("not", "emit(not %s)\n"),
+    ("not-not", "emit(not not %s)\n"),
+    ("bool", "emit(bool(%s))\n"),
+    ("if-and-effect", "if %s and t(<<1>>):\n    emit(\"then\")\nemit(<<9>>)\n"),
+    ("if-effect-or", "if t(<<0>>) or %s:\n    emit(\"then\")\nemit(<<9>>)\n"),
+    ("if-or-effect", "if %s or t(<<1>>):\n    emit(\"then\")\nemit(<<9>>)\n"),
+    ("if-const-and", "if <<1>> and %s:\n    emit(\"then\")\nemit(<<9>>)\n"),
+    ("if-const-or", "if <<0>> or %s:\n    emit(\"then\")\nelse:\n    emit(\"else\")\n"),
+    ("compr-if", "emit([x for x in <<[1, 2]>> if %s])\n"),
+    ("compr-if-not", "emit({x: x for x in <<[1]>> if not %s})\n"),
+    ("compr-if-and", "emit([x for x in <<[1, 2]>> if x and %s])\n"),
+    ("loop-break", "for i in <<[1, 2]>>:\n    if %s:\n        break\n    emit(i)\nemit(<<9>>)\n"),
+    ("loop-continue", "for i in <<[1]>>:\n    if not %s:\n        continue\n    emit(\"body\")\nemit(<<9>>)\n"),
+    ("lambda-ifx", "f = lambda: <<1>> if %s else <<2>>\nemit(<<0>>)\nemit(f())\n"),
+    ("def-return-ifx", "def g(p):\n    return <<1>> if %s else p\nemit(<<0>>)\nemit(g(<<4>>))\n"),
+    ("def-return-not", "def g():\n    return not %s\nemit(<<0>>)\nemit(g())\n"),
+    ("def-if-return", "def g(p):\n    if %s:\n        return p\n    return <<7>>\nemit(<<0>>)\nemit(g(<<4>>))\n"),
+    # the operation inside a display whose own truth value is known from its shape
+    ("list-wrapped-and", "emit([%s] and <<1>>)\n"),
+    ("tuple-wrapped-or", "emit((%s,) or <<1>>)\n"),
+    ("list-wrapped-ifx", "emit(<<1>> if [%s] else <<2>>)\n"),
+    ("tuple-wrapped-if", "if (%s, <<1>>):\n    emit(\"then\")\nemit(<<9>>)\n"),
+    ("dict-value-wrapped-and", "emit({<<\"k\">>: %s} and <<1>>)\n"),
+    ("not-list-wrapped", "emit(not [%s])\n"),
+]
+DISCARD_POSITIONS = [
+    ("stmt", "emit(<<0>>)\n%s\nemit(<<1>>)\n"),
+    ("stmt-list", "emit(<<0>>)\n[%s]\nemit(<<1>>)\n"),
+    ("stmt-tuple", "emit(<<0>>)\n(%s, <<1>>)\nemit(<<1>>)\n"),
+    ("stmt-not", "emit(<<0>>)\nnot %s\nemit(<<1>>)\n"),
+    ("stmt-and", "emit(<<0>>)\n%s and <<1>>\nemit(<<1>>)\n"),
+    ("stmt-ifx", "emit(<<0>>)\n<<1>> if %s else <<2>>\nemit(<<1>>)\n"),
+    ("stmt-type", "emit(<<0>>)\ntype(%s)\nemit(<<1>>)\n"),
+    ("stmt-in-if", "emit(<<0>>)\nif <<1>>:\n    %s\nemit(<<1>>)\n"),
+    ("stmt-in-for", "for i in <<[1, 2]>>:\n    %s\n    emit(i)\nemit(<<9>>)\n"),
+    ("unused-assign", "emit(<<0>>)\nunused_ = %s\nemit(<<1>>)\n"),
+    ("type-of", "emit(type(%s))\n"),
+    ("type-is", "emit(type(%s) == <<\"dict\">>)\n"),
+    ("type-of-list", "emit(type([%s]))\n"),
+    ("type-of-tuple", "emit(type((%s,)))\n"),
+    ("type-of-dict", "emit(type({<<1>>: %s}))\n"),
+    ("len-of-list", "emit(len([%s, <<1>>]))\n"),
+    ("len-of-tuple", "emit(len((%s, %s)))\n"),
+    ("index-other-list", "emit([%s, <<1>>][<<1>>])\n"),
+    ("index-other-tuple", "emit((%s, <<2>>)[<<1>>])\n"),
+    ("for-over-list", "for _ in [%s]:\n    emit(\"it\")\nemit(<<9>>)\n"),
+    ("for-over", "for _ in %s:\n    emit(\"it\")\nemit(<<9>>)\n"),
+    ("compr-over", "emit([<<1>> for _ in %s])\n"),
+    ("seq-after", "emit((t(<<5>>), %s, t(<<6>>))[<<0>>])\n"),
+    ("return-value", "def g():\n    return %s\nemit(<<0>>)\nemit(g())\n"),
+    ("return-discarded", "def g():\n    return %s\nemit(<<0>>)\ng()\nemit(<<1>>)\n"),
+    ("default-param", "emit(<<0>>)\ndef g(p=%s):\n    return <<1>>\nemit(g())\n"),
+    ("call-arg-unused", "def g(p):\n    return <<1>>\nemit(<<0>>)\nemit(g(%s))\n"),
+]
+
+
+def fam_raising_ctor(rng, n):
+    """Display constructors that raise (and controls) in EVERY truth-value / discarded position: the full product (it is the
+    class of `is_pure_infallible` / `is_pure_infallible_to_bool` on displays, small enough to enumerate); then n random
+    (other raising operation, position) pairs."""
+    out = []
+    allpos = COND_POSITIONS + DISCARD_POSITIONS
+    for i, e in enumerate(CTOR_RAISERS):
+        for tag, p in allpos:
+            out.append(template_group("rc%d_%s" % (i, tag), "raising-ctor:" + tag, p.replace("%s", e), lib=HELP_T, cell=False))
+    for i in range(n):
+        e = rng.choice(OTHER_RAISERS)
+        tag, p = rng.choice(allpos)
+        out.append(template_group("ro%d_%s" % (i, tag), "raising-op:" + tag, p.replace("%s", e), lib=HELP_T, cell=False))
+    return out
+
+
+# ---- calls to tiny defs that the compiler specialises (ReturnTypeIs) or inlines (ReturnSafeToInlineExpr) ------------------------
+# The call must behave like a call: wrong arity, a keyword-only parameter passed positionally, an unknown keyword, *args/**kwargs
+# must give the same error (or value) whether or not the callee is frozen and visible.
+CS_SIGS = [("x", "x"), ("*, x", "x"), ("*, x=1", "x"), ("x=1", "x"), ("x, y", "x"), ("x, y=2", "y"), ("x, *, y=2", "x"), ("x, *, y", "y"), ("*, x, y=2", "x"),
+           ("*args", "args"), ("**kw", "kw"), ("x, *args", "x"), ("x, **kw", "x"), ("*args, x", "x"), ("*args, x=1", "x"), ("", None)]
+CS_BODIES_CORE = [("type-is", "return type(%s) == \"int\""), ("type-is-rev", "return \"int\" == type(%s)"), ("ident", "return %s"), ("const", "return 7"), ("pass", "pass")]
+CS_BODIES_MORE = [("type-is", "return type(%s) == \"string\""), ("type-is", "return type(%s) == \"tuple\""), ("type-is-not", "return type(%s) != \"int\""),
+                  ("type-of", "return type(%s)"), ("list", "return [%s, %s]"), ("not", "return not %s"), ("none", "return None"), ("ifx", "return (%s if %s else 0)"),
+                  ("eq", "return %s == 1"), ("str", "return str(%s)"), ("dict", "return {%s: 1}"), ("and", "return %s and [%s]"), ("effect", "return [t(%s)]"),
+                  ("two-stmts", "r = %s\n    return r"), ("tuple-const", "return (1, \"a\")")]
+CS_CALLS_CORE = ["(<<%(a)s>>)", "()", "(x=<<%(a)s>>)", "(<<%(a)s>>, <<%(b)s>>)", "(<<%(a)s>>, zz=<<%(b)s>>)", "(*[<<%(a)s>>])", "(**{\"x\": <<%(a)s>>})", "(%(p)s)",
+                 "(zz=<<%(a)s>>)"]
+CS_CALLS_MORE = ["(y=<<%(a)s>>)", "(<<%(a)s>>, x=<<%(b)s>>)", "(<<%(a)s>>, y=<<%(b)s>>)", "(*[<<%(a)s>>, <<%(b)s>>])", "(x=<<%(a)s>>, y=<<%(b)s>>)", "(*[], **{})", "(x=%(p)s)",
+                 "(%(p)s, %(q)s)", "(<<%(a)s>>, *[<<%(b)s>>])", "(x=<<%(a)s>>, **{\"x\": <<%(b)s>>})", "(%(z)s)", "(<<%(a)s>>, *[])", "(<<%(a)s>>, <<%(b)s>>, <<%(a)s>>)",
+                 "(*%(p)s)", "(**%(q)s)", "(t(<<%(a)s>>))", "(x=t(<<%(a)s>>))", "(%(q)s, x=%(p)s)", "(%(z)s, %(p)s)"]
+
+
+def call_shape_group(gid, sig, var, kind, body, call, d):
+    """One tiny def f(sig): body in a library, one call shape, at every kind of call site: def of the same unfrozen module, def
+    frozen together with f, def of a loading module, module level (f unfrozen / f frozen and loaded); callee visible or hidden."""
+    body = body.replace("%s", var or "None")
+    lib = HELP_T + "def f(%s):\n    %s\n" % (sig, body)
+    in_def = "<<f>>" + call % dict(d, p="p", q="q", z="z")
+    at_top = "<<f>>" + call % dict(d, p="P", q="Q", z="Z")
+    caller = "def caller(p, q, flag):\n    if flag:\n        z = <<5>>\n    emit(\"in\")\n    r = %s\n    emit(r)\n    return r\n" % in_def
+    run = "emit(caller(<<%(a)s>>, <<%(b)s>>, <<True>>))\nemit(caller(<<%(b)s>>, <<%(a)s>>, <<False>>))\n" % d
+    top = "P = <<%(a)s>>\nQ = <<%(b)s>>\nif <<False>>:\n    Z = <<5>>\nemit(\"in\")\n" % d + "emit(" + at_top + ")\n"
+    g = {"id": gid, "family": "call-shape:" + kind, "variants": {}, "pairs": [],
+         "meta": {"sig": sig, "body_kind": kind, "body": body, "call": call}}
+    for mode in ("plain", "opaque"):
+        libsrc, callersrc, runsrc, topsrc = (opacify.render(x, mode) for x in (lib, caller, run, top))
+        g["variants"]["single_" + mode] = case(libsrc + callersrc + runsrc)                                                    # nothing frozen
+        g["variants"]["loaded_" + mode] = case('load("lib", "f", "t", "caller")\n' + runsrc, mods=[{"name": "lib", "src": libsrc + callersrc}])  # caller frozen with f
+        g["variants"]["loaded2_" + mode] = case('load("lib", "f", "t")\n' + callersrc + runsrc, mods=[{"name": "lib", "src": libsrc}])           # caller in the loading module
+        g["variants"]["top_" + mode] = case(libsrc + topsrc)                                                                     # module level, f unfrozen
+        g["variants"]["loaded3_" + mode] = case('load("lib", "f", "t")\n' + topsrc, mods=[{"name": "lib", "src": libsrc}])     # module level, f frozen
+    g["pairs"] = [("single_plain", "single_opaque"), ("loaded_plain", "loaded_opaque"), ("loaded2_plain", "loaded2_opaque"), ("loaded3_plain", "loaded3_opaque"),
+                  ("single_plain", "loaded_plain"), ("single_plain", "loaded2_plain"), ("top_plain", "loaded3_plain"), ("top_plain", "top_opaque")]
+    return g
+
+
+def fam_call_shape(rng, n):
+    """Core product (specialised bodies x every signature x the core call shapes), then n random draws from everything."""
+    out = []
+    d0 = {"a": "1", "b": "\"s\""}
+    for si, (sig, var) in enumerate(CS_SIGS):
+        for bi, (kind, body) in enumerate(CS_BODIES_CORE):
+            for ci, call in enumerate(CS_CALLS_CORE):
+                out.append(call_shape_group("cs%d_%d_%d" % (si, bi, ci), sig, var, kind, body, call, d0))
+    for i in range(n):
+        sig, var = rng.choice(CS_SIGS)
+        kind, body = rng.choice(CS_BODIES_CORE + CS_BODIES_MORE)
+        call = rng.choice(CS_CALLS_CORE + CS_CALLS_MORE)
+        d = {"a": rng.choice(NOBIG), "b": rng.choice(NOBIG)}
+        out.append(call_shape_group("csr%d" % i, sig, var, kind, body, call, d))
+    return out
+
+
 FAMILIES = [("fold", fam_fold, 6), ("short-circuit", fam_short_circuit, 3), ("effect-stmt", fam_effect_stmt, 1), ("inline", fam_inline, 3),
             ("module-var", fam_module_var, 1), ("repl", fam_repl, 0.2), ("format", fam_format, 3), ("for-empty", fam_for_empty, 0.6),
-            ("dialect", fam_dialect, 3), ("slice-fold", fam_slice, 1)]
+            ("dialect", fam_dialect, 3), ("slice-fold", fam_slice, 1), ("raising-ctor", fam_raising_ctor, 4), ("call-shape", fam_call_shape, 2)]
 
 
 def corpus_groups():
@@ -446,9 +644,28 @@ def classify(g, a, b, sa, sb):
         return KEY_STALE
     if g["family"] == "slice-fold":
         return KEY_SLICE
+    if kwonly_type_is(g, sa, sb):
+        return KEY_KWONLY
     if sa[0] == "CRASH" or sb[0] == "CRASH":
         return "C02/crash:" + g["family"].split(":")[0]
     return "C02/diff:%s:%s~%s" % (g["family"].split(":")[0], a, b)
+
+
+def kwonly_type_is(g, sa, sb):
+    """The one known defect of call specialisation: `def f(*, x): return type(x) == "T"` (ReturnTypeIs although the only parameter
+    is keyword-only), frozen and visible, called with exactly one positional argument and nothing else: the call is rewritten to
+    `type(arg) == "T"` and succeeds; an ordinary call refuses the positional argument.  Narrow: that signature, that body, that
+    call shape, and one side succeeds where the other fails in the call."""
+    m = g.get("meta") or {}
+    if not g["family"].startswith("call-shape") or not m.get("body_kind", "").startswith("type-is") or m.get("body_kind") == "type-is-not":
+        return False
+    if re.sub(r"\s", "", m.get("sig", "")) not in ("*,x", "*,x=1"):
+        return False
+    if m.get("call") not in ("(<<%(a)s>>)", "(%(p)s)", "(%(z)s)", "(t(<<%(a)s>>))"):
+        return False
+    # exactly one side refuses the positional argument; the other side made the call (and went on)
+    refused = [any(o[0] == "err" and re.search(r"named-only parameter|extra positional|positional argument", o[2] or "") for o in outcomes(x)) for x in (sa, sb)]
+    return refused[0] != refused[1]
 
 
 def compare_groups(groups, sigs, stats):
@@ -541,6 +758,26 @@ def triage_slice(ctx, g, a, b):
     return sa is not None and sa == sb
 
 
+def full_text(c):
+    """The program of a variant, library modules included."""
+    return "".join("# module %s\n%s" % (m["name"], m["src"]) for m in c.get("mods", [])) + ("# main module\n" if c.get("mods") else "") + c["src"]
+
+
+def direction(a, b, sa, sb):
+    """Which way the difference goes, when one variant fails and the other does not (or fails differently)."""
+    ea = [o for o in outcomes(sa) if o[0] == "err"]
+    eb = [o for o in outcomes(sb) if o[0] == "err"]
+    if ea and not eb:
+        return " (the error `%s` of `%s` does not happen in `%s`)" % (ea[0][2], a, b)
+    if eb and not ea:
+        return " (the error `%s` of `%s` does not happen in `%s`)" % (eb[0][2], b, a)
+    if ea and eb and ea[0] != eb[0]:
+        return " (different errors)"
+    if not ea and not eb:
+        return " (both succeed: different transcript or result)"
+    return " (same error, different transcript)"
+
+
 def failures_of(ctx, groups, sigs, diffs, do_shrink=True):
     fails, seen = [], {}
     for gi, a, b, sa, sb in diffs:
@@ -553,6 +790,8 @@ def failures_of(ctx, groups, sigs, diffs, do_shrink=True):
             continue
         rep = {"group": {"id": g["id"], "family": g["family"], "variants": {a: g["variants"][a], b: g["variants"][b]}, "pairs": [[a, b]]},
                "observed": {a: sa, b: sb}}
+        if g.get("meta"):
+            rep["group"]["meta"] = g["meta"]
         if do_shrink:
             try:
                 m = shrink(ctx, g, a, b)
@@ -560,9 +799,9 @@ def failures_of(ctx, groups, sigs, diffs, do_shrink=True):
                     rep["minimised"] = {a: m[0], b: m[1]}
             except Exception as e:  # noqa: BLE001
                 rep["shrink_error"] = str(e)
-        what = ("%s [%s]: variants `%s` and `%s` of the same program behave differently: %s | %s ; program (%s):\n%s"
-                % (g["id"], g["family"], a, b, json.dumps(sa)[:300], json.dumps(sb)[:300], a,
-                   (rep.get("minimised", {}).get(a) or g["variants"][a]["src"])[:600]))
+        what = ("%s [%s]: variants `%s` and `%s` of the same program behave differently%s: %s | %s ; program (%s):\n%s"
+                % (g["id"], g["family"], a, b, direction(a, b, sa, sb), json.dumps(sa)[:300], json.dumps(sb)[:300], a,
+                   (rep.get("minimised", {}).get(a) or full_text(g["variants"][a]))[:900]))
         fails.append({"key": key, "what": what, "replay": rep})
     return fails, seen
 
@@ -709,7 +948,12 @@ META = {
                   "optimisation (expression statements, if, for, dead code after terminal statements) is sound with the for-guard repaired. "
                   "The guards the model mirrors are read from the Rust text by the translator (Extracted/OptC.v, theorem "
                   "C02_extracted_guards): removing one breaks the proof build and starts the counter-example search. "
-                  "Findings of this check: ExprCompiled::slice as written (mirror slice_as_written) folds a slice of a constant "
+                  "is_pure_infallible_to_bool's dict arm is restricted to the EMPTY display in the code (read by the translator); "
+                  "C02_dict_to_bool_guard_necessary shows the restriction necessary: with the arm written like the list/tuple arm, `{[]: 1}` "
+                  "and `{\"a\": 1, \"a\": 2}` are predicted true although building them fails, and the folded conditional runs a branch. "
+                  "Findings of this check: a def `f(*, x): return type(x) == T` (keyword-only parameter) is specialised as ReturnTypeIs and, once "
+                  "frozen, accepts a positional argument that an ordinary call refuses (known finding, outside the model: the model's defs "
+                  "have positional parameters only); ExprCompiled::slice as written (mirror slice_as_written) folds a slice of a constant "
                   "receiver ignoring non-constant bounds - refuted by C02_slice_as_written_refuted, the proved slice_c is the intended "
                   "guard; a module constant inlined into a def is stale after a later eval_module rebinding it (outside the model: one "
                   "AstModule per Module). "
